@@ -204,6 +204,9 @@ func (m *HeapMon) Check() {
 	if m.N > 40 && c.R.Intn(16) != 0 {
 		return // Values()/iteration cost grows quadratically with the level width
 	}
+	if m.N > 700 && c.R.Intn(40) != 0 {
+		return
+	}
 	vs := m.C.Values()
 	m.checkPerm("values", vs, p)
 	var walk []E
@@ -269,6 +272,17 @@ func runC06(c *core.Ctx) {
 	steps := r.Range(20, 250)
 	if c.Index%40 == 7 {
 		steps = 2000
+	}
+	if c.Index%1600 == 9 {
+		// thousands of elements: bulk loads, then long interleavings
+		for m.N < 2000 {
+			m.DoPush(gen([]int{1, 17, 64, 255, 256, 1000}[r.Intn(6)]))
+		}
+		for k := 0; k < 1000; k++ {
+			m.DoPop()
+		}
+		c.Count("heap:big-cases", 1)
+		steps = 1000
 	}
 	for s := 0; s < steps; s++ {
 		switch r.Pick(30, 12, 30, 10, 1, 4) {
